@@ -1218,6 +1218,12 @@ class _BoolOpToIf(ast.NodeTransformer):
         return st
 
 
+# public module-level operator tables of the library that rules judge AS TABLES (abstract evaluation of every row: C02.tables, C12.arith /
+# compare / assign) and whose call sites are read as `TABLE[key](operands)`: a lookup in them stays a lookup, whatever their values are
+# (lambdas, operator functions, named functions); writing the rows out as an if-chain would hide the idiom from those rules
+ORACLE_TABLES = {"BinaryOperator", "NUMERICAL_BINARY_OPERATORS", "COMPARISON_OPERATORS", "ASSIGNMENT_EXPRESSIONS"}
+
+
 class _TableDispatch(ast.NodeTransformer):
     """`TABLE[key](args)` where TABLE is a dict literal {constant: callable, ...} bound once (locally or at module level) becomes
     `if key == c1: f1(args) elif key == c2: f2(args) ... else: TABLE[key](args)`: the callees become visible to inlining and to the
@@ -1264,6 +1270,8 @@ class _TableDispatch(ast.NodeTransformer):
                 return None
             return node
         if not isinstance(e, ast.Name):
+            return None
+        if e.id in ORACLE_TABLES and e.id not in self.local:
             return None
         d = None
         if e.id in self.local:
